@@ -248,6 +248,42 @@ pub fn decode_dir(b: &[u8]) -> Result<Vec<SpecEntry>, String> {
 // codecs (upstream libraries called directly)
 
 pub fn compress(ic: u8, data: &[u8]) -> Result<Vec<u8>, String> {
+    compress_with(ic, data, 0)
+}
+
+/// `strength` selects encoder parameters another writer might use: 0 = defaults; otherwise gzip
+/// level 1 / 9, brotli quality 1 with a small window / quality 9 with a 2^24 window, zstd level
+/// 1 / 19 / 22 (high zstd levels announce large windows in the frame header).
+pub fn compress_with(ic: u8, data: &[u8], strength: u8) -> Result<Vec<u8>, String> {
+    if strength != 0 {
+        match ic {
+            2 => {
+                let lvl = if strength % 2 == 1 { 1 } else { 9 };
+                let mut e = flate2::write::GzEncoder::new(Vec::new(), flate2::Compression::new(lvl));
+                e.write_all(data).map_err(|e| e.to_string())?;
+                return e.finish().map_err(|e| e.to_string());
+            }
+            3 => {
+                let (q, w) = if strength % 2 == 1 { (1, 10) } else { (9, 24) };
+                let mut out = Vec::new();
+                {
+                    let mut wr = brotli::CompressorWriter::new(&mut out, 4096, q, w);
+                    wr.write_all(data).map_err(|e| e.to_string())?;
+                    wr.flush().map_err(|e| e.to_string())?;
+                }
+                return Ok(out);
+            }
+            4 => {
+                let lvl = match strength % 3 {
+                    0 => 1,
+                    1 => 19,
+                    _ => 22,
+                };
+                return zstd::stream::encode_all(data, lvl).map_err(|e| e.to_string());
+            }
+            _ => {}
+        }
+    }
     match ic {
         1 => Ok(data.to_vec()),
         2 => {
@@ -323,6 +359,41 @@ pub fn decompress_lenient(ic: u8, data: &[u8], limit: usize) -> Vec<u8> {
         },
         _ => Vec::new(),
     }
+}
+
+/// Like `decompress_lenient`, but through the asynchronous decoders (they differ from the
+/// synchronous ones in how much of a damaged or truncated stream they hand out before failing).
+pub fn decompress_lenient_async(ic: u8, data: &[u8], limit: usize) -> Vec<u8> {
+    use async_compression::futures::bufread::{BrotliDecoder, GzipDecoder, ZstdDecoder};
+    use futures::io::{AsyncRead, AsyncReadExt, BufReader};
+    async fn drain(mut r: impl AsyncRead + Unpin, limit: usize) -> Vec<u8> {
+        let mut out = Vec::new();
+        let mut buf = [0u8; 1];
+        while out.len() < limit {
+            match r.read(&mut buf).await {
+                Ok(0) | Err(_) => break,
+                Ok(n) => out.extend_from_slice(&buf[..n]),
+            }
+        }
+        out
+    }
+    // how much comes out before the failure depends on how the input arrives: try it whole and
+    // one byte at a time, keep the longer output
+    let mut best: Vec<u8> = Vec::new();
+    for cap in [8192usize, 1] {
+        let r = match ic {
+            1 => return data[..data.len().min(limit)].to_vec(),
+            2 => crate::exec::block_on(drain(GzipDecoder::new(BufReader::with_capacity(cap, data)), limit)),
+            3 => crate::exec::block_on(drain(BrotliDecoder::new(BufReader::with_capacity(cap, data)), limit)),
+            4 => crate::exec::block_on(drain(ZstdDecoder::new(BufReader::with_capacity(cap, data)), limit)),
+            _ => return Vec::new(),
+        };
+        let r = r.unwrap_or_default();
+        if r.len() > best.len() {
+            best = r;
+        }
+    }
+    best
 }
 
 // ---------------------------------------------------------------------------------------------
@@ -823,6 +894,9 @@ pub struct Layout {
     /// (tile after leaf pointer, pointer after tile) gets the wire offset 0 ("contiguous")
     #[serde(default)]
     pub kind_coincidence: bool,
+    /// encoder parameters of the foreign writer (see `compress_with`)
+    #[serde(default)]
+    pub strength: u8,
 }
 
 #[derive(Clone, Debug)]
@@ -853,7 +927,7 @@ pub fn write_foreign(
     let mut want_levels = layout.levels;
     loop {
         if want_levels == 0 {
-            let enc = compress(ic, &encode_dir(&current))?;
+            let enc = compress_with(ic, &encode_dir(&current), layout.strength)?;
             if enc.len() as u64 + HEADER_LEN as u64 + u64::from(layout.gaps[0].min(64)) <= ROOT_BUDGET_END - 200 {
                 break;
             }
@@ -876,7 +950,7 @@ pub fn write_foreign(
             if *inl {
                 blobs.push(None);
             } else {
-                blobs.push(Some(compress(ic, &encode_dir(c))?));
+                blobs.push(Some(compress_with(ic, &encode_dir(c), layout.strength)?));
             }
         }
         let mut place: Vec<usize> = (0..chunks.len()).filter(|i| blobs[*i].is_some()).collect();
@@ -939,8 +1013,8 @@ pub fn write_foreign(
             return Err("foreign writer: directory tree does not converge".into());
         }
     }
-    let root = compress(ic, &encode_dir(&current))?;
-    let meta = if layout.empty_meta { Vec::new() } else { compress(ic, meta_plain)? };
+    let root = compress_with(ic, &encode_dir(&current), layout.strength)?;
+    let meta = if layout.empty_meta { Vec::new() } else { compress_with(ic, meta_plain, layout.strength)? };
 
     // lay out sections
     let sections: [&[u8]; 4] = [&root, &meta, &leaf_section, &data];
